@@ -78,6 +78,44 @@ def selfcheck():
             assert contains_classical(perm, patt) == S.contains(perm, patt), (perm, patt)
     assert [len(level(n, [(0, 1, 2)])) for n in range(7)] == [1, 1, 2, 5, 14, 42, 132]
     assert [len(level(n, [(0, 2, 1), (2, 0, 1)])) for n in range(7)] == [1, 1, 2, 4, 8, 16, 32]
+    for basis in ([(0, 1, 2)], [(0, 2, 1), (3, 0, 1, 2)], [(0, 1)], [(0, 1, 2), (2, 1, 0)], [(1, 3, 0, 2), (2, 0, 3, 1)]):
+        assert level_closed(6, basis) == level(6, basis), basis
+    assert [len(level_closed(n, [(0, 1, 2, 3)])) for n in (6, 7, 8)] == [513, 2761, 15767]
+
+
+@functools.lru_cache(maxsize=None)
+def _level_closed(n, patts):
+    if n <= 5:
+        return _level(n, patts)
+    below = _level_closed(n - 1, patts)
+    out = []
+    for p in below:
+        for pos in range(n):
+            cand = p[:pos] + (n - 1,) + p[pos:]
+            if not any(contains_classical(cand, q) for q in patts):
+                out.append(cand)
+    return tuple(sorted(out))
+
+
+def level_closed(n, patts):
+    """Av_n for a CLASSICAL basis, still by the definition (every candidate is
+    tested for containment by brute force), but candidates are restricted to the
+    permutations whose deletion of the maximum lies in Av_{n-1}: a class defined
+    by classical patterns is closed under deleting points, so nothing is lost.
+    Used for lengths 7-8 where filtering all of S_n is too slow; equal to
+    `level` on everything `selfcheck` compares."""
+    key = canon(patts)
+    assert not any(S.is_mesh(q) for q in key)
+    return _level_closed(n, key)
+
+
+@functools.lru_cache(maxsize=None)
+def _level_closed_set(n, patts):
+    return frozenset(_level_closed(n, patts))
+
+
+def level_closed_set(n, patts):
+    return _level_closed_set(n, canon(patts))
 
 
 # ------------------------------------------------------------ "first k"
